@@ -26,7 +26,7 @@ var (
 	c15PubOK, c15PrivOK, c15SigOK, c15MySQLOK, c15PgOK bool
 )
 
-//verif:stub github.com/google/certificate-transparency-go/x509.ParsePKIXPublicKey files=config.go
+//verif:stub github.com/google/certificate-transparency-go/x509.ParsePKIXPublicKey files=*
 func c15ParsePub(der []byte) (any, error) {
 	if c15PubOK {
 		return &ecdsa.PublicKey{Curve: elliptic.P256()}, nil
@@ -50,7 +50,7 @@ func c15VerifySTH(v *ct.SignatureVerifier, sth ct.SignedTreeHead) error {
 	return errors.New("bad signature")
 }
 
-//verif:stub github.com/go-sql-driver/mysql.ParseDSN files=config.go
+//verif:stub github.com/go-sql-driver/mysql.ParseDSN files=*
 func c15ParseDSN(dsn string) (*mysqldrv.Config, error) {
 	if c15MySQLOK {
 		return &mysqldrv.Config{}, nil
@@ -58,7 +58,7 @@ func c15ParseDSN(dsn string) (*mysqldrv.Config, error) {
 	return nil, errors.New("bad dsn")
 }
 
-//verif:stub github.com/jackc/pgx/v5/pgconn.ParseConfig files=config.go
+//verif:stub github.com/jackc/pgx/v5/pgconn.ParseConfig files=*
 func c15ParsePg(s string) (*pgconn.Config, error) {
 	if c15PgOK {
 		return &pgconn.Config{}, nil
